@@ -24,7 +24,7 @@ SHRINK_LISTS = ("ops",)
 ISOLATE = True          # every run in a forked child: the subject is process-global state
 PROBES = {"C06": ["inject:pypose-frame", "inject:user-frame", "inject:torch-frame", "inject:other-frame", "user-raise",
                   "user-raise:BaseException", "nested>=2", "reused-wrapper", "op-raised", "op-completed-despite-fault",
-                  "mode-B-fork", "enumerated-all-k", "monitor:api-call"]}
+                  "mode-B-fork", "enumerated-all-k", "monitor:api-call", "monitor:strided-args"]}
 
 # identity snapshot of the three patched attributes, taken at import (before any retain_ltype ran in this process)
 ORIG = {"make_dual": _fa.make_dual, "_wrap_tensor_for_grad": _et._wrap_tensor_for_grad, "_add_batch_dim": _vm._add_batch_dim}
@@ -347,14 +347,42 @@ def _make_thunk(o, fam, n, seed, reuse_cache):
     raise ValueError(op)
 
 
+_BASES = []
+
+
+def _lay(t, strided):
+    """The same values, optionally living in every second slot of a larger zero buffer (a non-contiguous view)."""
+    if not strided or t.ndim == 0:
+        return t
+    is_lie = hasattr(t, "ltype")
+    raw = t.tensor() if is_lie else t
+    base = torch.zeros(raw.shape[:-1] + (2 * raw.shape[-1],), dtype=raw.dtype)
+    base[..., ::2] = raw
+    _BASES.append(base)
+    v = base[..., ::2]
+    return pp.LieTensor(v, ltype=t.ltype) if is_lie else v
+
+
+def _gaps_clean(name, i):
+    for b in _BASES:
+        if float(b[..., 1::2].abs().max()) != 0.0:
+            raise Violation("C06.mutation", "public function '%s' wrote outside the view it was given (into the gaps of a "
+                            "strided argument)" % name, i, "mutation:gap:" + name)
+
+
 def _api_monitor(seed, i, fam, n, out):
     """Argument non-mutation monitor over LieTensor API calls made by the simulated workloads."""
     from .optmodels import rand_grp, rand_alg
     dt = torch.float64
-    X = rand_grp(seed, ("mX", i), (n,), fam, dt); Y = rand_grp(seed, ("mY", i), (n,), fam, dt)
-    a = rand_alg(seed, ("ma", i), (n,), fam, dt); p = rng.randn(seed, ("mp", i), (n, 3), dt)
-    p4 = rng.randn(seed, ("mp4", i), (n, 4), dt)
-    Z = rand_grp(seed, ("mZ", i), (5,), fam, dt)
+    strided = (rng.H(seed, "layout", i) % 2 == 1)
+    del _BASES[:]
+    if strided:
+        out.probe("monitor:strided-args")
+    L = lambda t: _lay(t, strided)
+    X = L(rand_grp(seed, ("mX", i), (n,), fam, dt)); Y = L(rand_grp(seed, ("mY", i), (n,), fam, dt))
+    a = L(rand_alg(seed, ("ma", i), (n,), fam, dt)); p = L(rng.randn(seed, ("mp", i), (n, 3), dt))
+    p4 = L(rng.randn(seed, ("mp4", i), (n, 4), dt))
+    Z = L(rand_grp(seed, ("mZ", i), (5,), fam, dt))
     calls = [("Exp", lambda: a.Exp(), [a]), ("Log", lambda: X.Log(), [X]), ("Inv", lambda: X.Inv(), [X]),
              ("matmul", lambda: X @ Y, [X, Y]), ("mul", lambda: X * Y, [X, Y]), ("Act3", lambda: X.Act(p), [X, p]),
              ("Act4", lambda: X.Act(p4), [X, p4]), ("Adj", lambda: X.Adj(a), [X, a]), ("AdjT", lambda: X.AdjT(a), [X, a]),
@@ -372,19 +400,24 @@ def _api_monitor(seed, i, fam, n, out):
         out.probe("monitor:api-call")
         for b, t in zip(before, args):
             if not torch.equal(b, t.detach()):
-                raise Violation("C06.mutation", "LieTensor API call '%s' (%s, batch %d) changed the values of one of its "
-                                "tensor arguments" % (name, fam, n), i, "mutation:" + name)
+                raise Violation("C06.mutation", "LieTensor API call '%s' (%s, batch %d%s) changed the values of one of its "
+                                "tensor arguments" % (name, fam, n, ", strided arguments" if strided else ""), i, "mutation:" + name)
+        _gaps_clean(name, i)
 
 
 def _api_monitor2(seed, i, fam, n, out):
     """Second monitor list: conversion, geometry, spline, metric and linear-algebra helpers of the public API."""
     from .optmodels import rand_grp
     dt = torch.float64
-    g = lambda name, shape, sc=1.0: rng.randn(seed, ("m2", i, name), shape, dt, sc)
-    X = rand_grp(seed, ("m2X", i), (n,), fam, dt)
-    R3 = rand_grp(seed, ("m2R", i), (n,), "SO3", dt)
-    T = rand_grp(seed, ("m2T", i), (n,), "SE3", dt)
-    S = rand_grp(seed, ("m2S", i), (n,), "Sim3", dt)
+    strided = (rng.H(seed, "layout2", i) % 2 == 1)
+    del _BASES[:]
+    if strided:
+        out.probe("monitor:strided-args")
+    g = lambda name, shape, sc=1.0: _lay(rng.randn(seed, ("m2", i, name), shape, dt, sc), strided)
+    X = _lay(rand_grp(seed, ("m2X", i), (n,), fam, dt), strided)
+    R3 = _lay(rand_grp(seed, ("m2R", i), (n,), "SO3", dt), strided)
+    T = _lay(rand_grp(seed, ("m2T", i), (n,), "SE3", dt), strided)
+    S = _lay(rand_grp(seed, ("m2S", i), (n,), "Sim3", dt), strided)
     Xu = pp.LieTensor(X.tensor() * 1.5, ltype=X.ltype)          # un-normalised quaternion part for quat2unit
     traj = rand_grp(seed, ("m2traj", i), (8,), "SE3", dt)
     traj2 = rand_grp(seed, ("m2traj2", i), (8,), "SE3", dt)
@@ -445,8 +478,9 @@ def _api_monitor2(seed, i, fam, n, out):
         out.probe("monitor:api-call")
         for b, t in zip(before, args):
             if not torch.equal(b, t.detach()):
-                raise Violation("C06.mutation", "public function '%s' changed the values of one of its tensor arguments" % name,
-                                i, "mutation:" + name)
+                raise Violation("C06.mutation", "public function '%s' changed the values of one of its tensor arguments%s" %
+                                (name, " (strided arguments)" if strided else ""), i, "mutation:" + name)
+        _gaps_clean(name, i)
 
 
 def _check_after(out, o, what):
